@@ -101,6 +101,35 @@ type Link struct {
 	Unrel *Link
 	// deadAt: when Sever was called (unix nanoseconds), 0 while alive
 	deadAt int64
+
+	// write stall (a peer that has stopped reading: back-pressure): client writes block while stalled
+	stallMu sync.Mutex
+	stall   chan struct{} // non-nil while stalled; closed by ResumeWrites
+}
+
+// StallWrites makes client writes on this link block (as on a transport whose peer does not read) until ResumeWrites,
+// the link's death or the client's Close.
+func (l *Link) StallWrites() {
+	l.stallMu.Lock()
+	if l.stall == nil {
+		l.stall = make(chan struct{})
+	}
+	l.stallMu.Unlock()
+}
+
+func (l *Link) ResumeWrites() {
+	l.stallMu.Lock()
+	if l.stall != nil {
+		close(l.stall)
+		l.stall = nil
+	}
+	l.stallMu.Unlock()
+}
+
+func (l *Link) stalled() chan struct{} {
+	l.stallMu.Lock()
+	defer l.stallMu.Unlock()
+	return l.stall
 }
 
 func NewLink(index int, cfg transport.DialConfig) *Link {
@@ -194,6 +223,15 @@ func (c *clientEnd) Read() ([]byte, error) {
 func (c *clientEnd) Write(b []byte) error {
 	if atomic.LoadInt32(&c.closed) != 0 || c.l.Dead() {
 		return transport.ErrAlreadyClosed
+	}
+	if st := c.l.stalled(); st != nil {
+		select {
+		case <-st:
+		case <-c.l.dead:
+			return transport.ErrAlreadyClosed
+		case <-c.l.cliDone:
+			return transport.ErrAlreadyClosed
+		}
 	}
 	cp := make([]byte, len(b))
 	copy(cp, b)
